@@ -12,7 +12,7 @@ def oracle(ck, case, out):
   if why:
     ck.cov.setdefault('oracle_skipped', {})
     ck.cov['oracle_skipped'][why] = ck.cov['oracle_skipped'].get(why, 0) + 1
-  for m in so.c14_sorted(r, case['par_final'].get('n_designs', 1)):
+  for m in so.c14_sorted(r, int(case['par_final'].get('n_designs', 1))):
     fails.append(m)
   if fails:
     ck.fail('not-optimal', fails[0], {'case': searchfam.slim(case), 'which': 'exhaustive', 'all': fails[:5]})
